@@ -232,9 +232,9 @@ def extra_coverage():
         "proved_instruction_classes": ["amd64 mov/add/sub/cmp/and/or/xor r,r", "amd64 mov/add/sub/cmp/and/or/xor r,imm(width of r)",
                                        "amd64 inc/dec/neg/not r",
                                        "amd64 mov/add/sub/cmp/and/or/xor r,[mem]", "amd64 mov/add/sub/cmp/and/or/xor [mem],r",
-                                       "amd64 mov/add/sub/cmp/and/or/xor [mem],imm(width of the operand)", "amd64 lea r64/r32/r16,[mem]", "amd64 setcc r8 (14 condition codes; p/np read PF)", "amd64 cmovcc r,r 64/32/16-bit (14 codes; not-taken 32-bit zero-extends)", "amd64 jcc rel (14 codes, next address both ways)", "amd64 test r,r / r,imm", "amd64 xchg r,r", "amd64 movzx/movsx/movsxd r,r", "amd64 push r64 (mapped non-wrapping stack slot; push rsp stores the old rsp)", "amd64 pop r64 (mapped non-wrapping stack slot; pop rsp included)", "amd64 ret (no immediate; next address = the loaded return address)", "amd64 call rel32 (return address stored, next address = the target)",
+                                       "amd64 mov/add/sub/cmp/and/or/xor [mem],imm(width of the operand)", "amd64 lea r64/r32/r16,[mem]", "amd64 setcc r8 (14 condition codes; p/np read PF)", "amd64 cmovcc r,r 64/32/16-bit (14 codes; not-taken 32-bit zero-extends)", "amd64 jcc rel (14 codes, next address both ways)", "amd64 test r,r / r,imm", "amd64 xchg r,r", "amd64 movzx/movsx/movsxd r,r", "amd64 push r64 (mapped non-wrapping stack slot; push rsp stores the old rsp)", "amd64 pop r64 (mapped non-wrapping stack slot; pop rsp included)", "amd64 ret (no immediate; next address = the loaded return address)", "amd64 call rel32 (return address stored, next address = the target)", "amd64 ret imm16 (immediate ZERO-extended: rsp + 8 + imm16)", "amd64 leave", "amd64 push imm with the 64-bit operand size (the decoder's sign-extended immediate)", "amd64 call r64 (target read before the push: call rsp goes to the old rsp)",
                                        "memory operands: base/index any 64-bit register or rip, any scale/disp, no segment override, 64-bit address size, mapped non-wrapping access"],
-        "unproved_classes": "memory operands with a segment override or a 67 prefix, cmovcc with a memory source, adc/sbb, test/xchg/movzx/movsx with a memory operand, push/pop other than r64, call through a register or memory, ret imm16, leave, shifts/rotates/bt, every other mnemonic, and all of 32-bit mode: differential only (unproved_mnemonics lists the mnemonics with at least one unproved form, i.e. all of them)",
+        "unproved_classes": "memory operands with a segment override or a 67 prefix, cmovcc with a memory source, adc/sbb, test/xchg/movzx/movsx with a memory operand, push/pop of 16-bit or memory operands, call/jmp through memory, shifts/rotates/bt, every other mnemonic, and all of 32-bit mode: differential only (unproved_mnemonics lists the mnemonics with at least one unproved form, i.e. all of them)",
         "unproved_mnemonics": UNPROVED_MNEMONICS,
         "lifted_but_not_compared": NOT_COMPARED,
     }
